@@ -307,7 +307,7 @@ pub fn run_line(line: &str) -> String {
 pub const VIOLATIONS: &[&str] = &["const-write", "const-compound", "const-incr", "rvalue-write", "rvalue-incr", "call-write", "literal-write", "out-rvalue", "out-const", "inout-literal", "arity-more", "arity-less",
     "arg-struct", "arg-void", "ret-struct", "ret-void-value", "ret-missing-value", "init-struct", "cond-struct", "binop-struct", "member-missing", "undeclared", "const-member-write", "const-param-write", "const-array-write",
     "swizzle-repeat-write", "cbuffer-write", "static-const-global-write", "out-other-scalar", "out-other-vector", "inout-other-vector", "out-wider-vector", "out-member-of-const", "out-swizzle-repeat",
-    "out-enum-for-int", "const-nested-member-write", "const-nested-array-write", "const-nested-incr", "out-nested-member-of-const", "cbuffer-nested-write", "const-array-of-struct-write", "index-struct", "call-non-function", "ternary-mismatch", "enum-from-int", "void-var", "unknown-type"];
+    "out-enum-for-int", "const-nested-member-write", "const-nested-array-write", "const-nested-incr", "out-nested-member-of-const", "cbuffer-nested-write", "const-array-of-struct-write", "mswz-row-out-of-range", "mswz-col-out-of-range", "mswz-pair-out-of-range", "mswz-out-arg-out-of-range", "swz-out-of-range", "index-struct", "call-non-function", "ternary-mismatch", "enum-from-int", "void-var", "unknown-type"];
 
 /// Append to the program a function that is well-typed except for one violation.
 fn inject(base: &str, kind: &str, seed: u64) -> Option<String> {
@@ -343,6 +343,12 @@ fn inject(base: &str, kind: &str, seed: u64) -> Option<String> {
         "const-nested-incr" => return Some(format!("{}\n{}struct ZI{u} {{ int value; int table[2]; }};\nstruct ZO{u} {{ ZI{u} inner; }};\nvoid zbad{u}() {{ const ZO{u} o = (ZO{u})0; ++o.inner.value; }}\n", base, pre)),
         "out-nested-member-of-const" => return Some(format!("{}\n{}struct ZI{u} {{ int value; int table[2]; }};\nstruct ZO{u} {{ ZI{u} inner; }};\nvoid zbad{u}() {{ const ZO{u} o = (ZO{u})0; zoi{u}(o.inner.value); }}\n", base, pre)),
         "cbuffer-nested-write" => return Some(format!("{}\n{}struct ZI{u} {{ int value; int table[2]; }};\nstruct ZO{u} {{ ZI{u} inner; }};\ncbuffer ZCN{u} {{ ZO{u} zcn{u}; }}\nvoid zbad{u}() {{ zcn{u}.inner.value = 2; }}\n", base, pre)),
+        // components that the (non-square) matrix or the vector does not have
+        "mswz-row-out-of-range" => "float2x4 m = (float2x4)0; float a = m._m30;".to_string(),
+        "mswz-col-out-of-range" => "float4x2 m = (float4x2)0; float a = m._m03;".to_string(),
+        "mswz-pair-out-of-range" => "float2x4 m = (float2x4)0; float2 a = m._31_42;".to_string(),
+        "mswz-out-arg-out-of-range" => format!("float2x4 m = (float2x4)0; zof{u}(m._m21);"),
+        "swz-out-of-range" => "float2 v = float2(1, 2); float a = v.z;".to_string(),
         "const-array-of-struct-write" => format!("const ZS{u} arr[2] = {{ (ZS{u})0, (ZS{u})0 }}; arr[1].b.x = 3.0;"),
         "const-param-write" => return Some(format!("{}\n{}int zbad{u}(const int p) {{ p = 2; return p; }}\n", base, pre)),
         "const-array-write" => "const int arr[2] = { 1, 2 }; arr[0] = 3;".to_string(),
